@@ -120,6 +120,7 @@ def main():
     contract_lines = ["//go:build verif", "", "package tier2", ""]
     index = []
     used = set()
+    shape_attrs = {}
     for sh in data["shapes"]:
         UNIVERSE.update(sh["attrs"].keys())
     UNIVERSE.update(["ID", "VT", "EVT", "TT", "ET", "M", "SchemaTypeExpr", "Nesting"])
@@ -142,6 +143,7 @@ def main():
         elif attrs["Kind"] in ("PrimitiveList", "PrimitiveMap"): attrs["SchemaTypeExpr"] = "%s{ElemType: %s}" % (attrs["TT"], prim_expr())
         else: attrs["SchemaTypeExpr"] = "nil"
         attrs["Nesting"] = {"Object": "Single", "ObjectList": "List", "ObjectMap": "Map"}.get(attrs["Kind"], "")
+        shape_attrs[sid] = attrs
         body = sh["struct_def"] + "\n"
         funcs = {}
         for d, key, fname in (("CopyFrom", "copy_from", "Copy%sFromTerraform" % sid), ("CopyTo", "copy_to", "Copy%sToTerraform" % sid), ("Schema", "schema", "GenSchema%s" % sid)):
@@ -172,6 +174,48 @@ def main():
                 contract_lines.append("//@ func " + fname)
                 contract_lines += ["//@ " + c for c in clauses]
                 contract_lines.append("")
+    # Tier 3: glue functions composing the two converters of a shape, with the lemma templates of
+    # harness.go.txt as their contracts (verified modularly against the converters' contracts)
+    htpls = parse_templates(os.path.join(HERE, "harness.go.txt"))
+    GLUE = {
+        "RoundTrip": ("func RoundTrip_%(sid)s(ctx context.Context, obj *%(M)s, tf *%(types)s.Object, out *%(M)s) (%(diag)s.Diagnostics, %(diag)s.Diagnostics) {\n"
+                      "\td1 := Copy%(sid)sToTerraform(ctx, obj, tf)\n\td2 := Copy%(sid)sFromTerraform(ctx, *tf, out)\n\treturn d1, d2\n}\n"),
+        "Echo": ("func Echo_%(sid)s(ctx context.Context, plan *%(types)s.Object, mid *%(M)s, back *%(M)s) (%(diag)s.Diagnostics, %(diag)s.Diagnostics, %(diag)s.Diagnostics) {\n"
+                 "\td1 := Copy%(sid)sFromTerraform(ctx, *plan, mid)\n\td2 := Copy%(sid)sToTerraform(ctx, mid, plan)\n\td3 := Copy%(sid)sFromTerraform(ctx, *plan, back)\n\treturn d1, d2, d3\n}\n"),
+        "Refresh": ("func Refresh_%(sid)s(ctx context.Context, a *%(M)s, b *%(M)s, tf *%(types)s.Object) (%(diag)s.Diagnostics, %(diag)s.Diagnostics, %(diag)s.Diagnostics, %(attr)s.Value) {\n"
+                    "\td1 := Copy%(sid)sToTerraform(ctx, a, tf)\n\td2 := Copy%(sid)sToTerraform(ctx, b, tf)\n\tsnap := tf.Attrs[\"%(ns)s\"]\n\td3 := Copy%(sid)sToTerraform(ctx, b, tf)\n\treturn d1, d2, d3, snap\n}\n"),
+    }
+    by_shape = {}
+    for e in index:
+        if "emit_error" not in e:
+            by_shape.setdefault(e["shape"], set()).add(e["dir"])
+    for sh in data["shapes"]:
+        sid = sh["id"]
+        if not {"CopyFrom", "CopyTo"} <= by_shape.get(sid, set()):
+            continue
+        mm = re.search(r"type (M_\w+) struct", sh["struct_def"])
+        if not mm:
+            continue
+        attrs = shape_attrs[sid]
+        glue_body = ""
+        for kind, code in GLUE.items():
+            clauses, has_goal = [], False
+            for td, when, lines in htpls:
+                if td != kind: continue
+                if eval_when(when, attrs):
+                    clauses += [subst(l, attrs) for l in lines]
+            if not any(c.startswith("ensures") for c in clauses):
+                continue
+            fname = "%s_%s" % (kind, sid)
+            glue_body += code % {"sid": sid, "M": mm.group(1), "types": "github_com_hashicorp_terraform_plugin_framework_types",
+                                 "diag": "github_com_hashicorp_terraform_plugin_framework_diag",
+                                 "attr": "github_com_hashicorp_terraform_plugin_framework_attr", "ns": attrs["NameSnake"]} + "\n"
+            contract_lines.append("//@ func " + fname)
+            contract_lines += ["//@ " + c for c in clauses]
+            contract_lines.append("")
+            index.append({"shape": sid, "dir": kind, "func": fname, "attrs": sh["attrs"], "clauses": len(clauses), "glue": True})
+        if glue_body:
+            open(os.path.join(out, "h_%s.go" % sid), "w").write("package tier2\n\n// glue (not code of /repo): compositions of the emitted converters, see tier2/harness.go.txt\n\n" + imports_for(glue_body) + "\n" + glue_body)
     # typed(<shape>): every emitted file must type-check against the prelude (C01). Files that do not are
     # set aside (reported by the driver) so the remaining shapes can still be loaded and verified.
     type_errors = {}
@@ -190,6 +234,8 @@ def main():
             type_errors[sid] = errs
             src = os.path.join(out, "s_%s.go" % sid)
             os.rename(src, src + ".rejected")
+            if os.path.exists(os.path.join(out, "h_%s.go" % sid)):
+                os.remove(os.path.join(out, "h_%s.go" % sid))
     else:
         raise SystemExit("tier2 package still does not build after removing ill-typed shapes")
     # contracts of rejected shapes are dropped
@@ -197,7 +243,7 @@ def main():
     for l in contract_lines:
         if l.startswith("//@ func "):
             fn = l[len("//@ func "):].strip()
-            sid = re.sub(r"^(Copy|GenSchema)", "", fn)
+            sid = re.sub(r"^(Copy|GenSchema|RoundTrip_|Echo_|Refresh_)", "", fn)
             sid = re.sub(r"(FromTerraform|ToTerraform)$", "", sid)
             skip = sid in type_errors
         if not skip:
